@@ -247,7 +247,7 @@ func c12Thresholds(c *Ctx) {
 	}
 	r.Check(okM && w == 1, "C12.thresholds.max-hash", c.P.Pos(g.Pos()), "maxHash = 3^243 (parsed base 16 from the constant), single writer")
 	one, w1, _ := c.globalInit("pkg/pow/v2", "one")
-	r.Check(one != nil && w1 == 1 && matches("obj(alloc<math/big.Int>, call<(*math/big.Int).SetInt64>(self, 1))", one), "C12.thresholds.one", "", "one = 1, single writer")
+	r.Check(one != nil && w1 == 1 && matches("call<math/big.NewInt>(1)", one), "C12.thresholds.one", "", "one = 1, single writer")
 
 	if f := c.fn("pkg/pow/v2", "targetHash"); f != nil {
 		b := ana.NewBuilder(c.P, f.Function)
